@@ -111,10 +111,17 @@ class ChangeField(BaseModelFieldMutation):
         if self.field_type is not None:
             field_sig.field_type = self.field_type
 
+        field_attrs = self.field_attrs.copy()
+
+        if 'related_model' in field_attrs:
+            # This is tracked on the field signature itself, not as one
+            # of its attributes.
+            field_sig.related_model = field_attrs.pop('related_model')
+
         if field_type_changed:
-            field_sig.field_attrs = self.field_attrs.copy()
+            field_sig.field_attrs = field_attrs
         else:
-            field_sig.field_attrs.update(self.field_attrs)
+            field_sig.field_attrs.update(field_attrs)
 
         if ('null' in self.field_attrs and not self.field_attrs['null'] and
             not issubclass(field_sig.field_type, models.ManyToManyField) and
